@@ -62,6 +62,8 @@ def run_cli(root: Path, case):
     cmd = [sys.executable, "-m", "rattr", *case["opts"], case["target"]]
     if case.get("culprit_wrapper"):
         cmd = [sys.executable, "-c", CULPRIT_WRAPPER, *case["opts"], case["target"]]
+    if case.get("fatal_wrapper"):
+        cmd = [sys.executable, "-c", FATAL_WRAPPER, *case["opts"], case["target"]]
     t0 = time.time()
     p = subprocess.Popen(cmd, cwd=str(d), stdout=subprocess.PIPE, stderr=subprocess.PIPE, env=env)
     try:
@@ -80,6 +82,53 @@ def run_cli(root: Path, case):
     dt = time.time() - t0
     shutil.rmtree(d, ignore_errors=True)
     return rc, out, err, to, dt
+
+
+CONFIRM_WALL_S = 240
+CONFIRM_CPU_S = 60
+MAX_CONFIRMED_TIMEOUTS = 2
+
+
+def _cpu_seconds(pid):
+    try:
+        f = Path(f"/proc/{pid}/stat").read_text().rsplit(")", 1)[1].split()
+        return (int(f[11]) + int(f[12])) / os.sysconf("SC_CLK_TCK")        # utime + stime
+    except Exception:
+        return None
+
+
+def confirm_timeout(root: Path, case):
+    """A first-pass timeout is only a suspicion (the machine may be loaded). Re-run the case ALONE and call it a
+    hang only if the child burnt >= CONFIRM_CPU_S seconds of its own CPU time, or >= CONFIRM_WALL_S seconds of
+    wall time passed, without finishing. -> ("finished", rc, out, err) | ("confirmed", cpu_s, wall_s, err)"""
+    d = materialise(root, case)
+    env = dict(os.environ, PYTHONHASHSEED="0", HOME=str(d / ".home"), XDG_CACHE_HOME=str(d / ".home" / ".cache"))
+    (d / ".home").mkdir(exist_ok=True)
+    p = subprocess.Popen([sys.executable, "-m", "rattr", *case["opts"], case["target"]], cwd=str(d), stdout=subprocess.PIPE,
+                         stderr=subprocess.PIPE, env=env)
+    t0 = time.time()
+    cpu = 0.0
+    try:
+        while True:
+            try:
+                o, e = p.communicate(timeout=0.5)
+                return ("finished", p.returncode, o.decode("utf-8", "replace"), e.decode("utf-8", "replace"))
+            except subprocess.TimeoutExpired:
+                pass
+            cpu = _cpu_seconds(p.pid) or cpu
+            wall = time.time() - t0
+            if cpu >= CONFIRM_CPU_S or wall >= CONFIRM_WALL_S:
+                p.send_signal(signal.SIGINT)
+                try:
+                    o, e = p.communicate(timeout=10)
+                except subprocess.TimeoutExpired:
+                    p.kill()
+                    o, e = p.communicate()
+                return ("confirmed", round(cpu, 1), round(wall, 1), e.decode("utf-8", "replace"))
+    finally:
+        if p.poll() is None:
+            p.kill()
+        shutil.rmtree(d, ignore_errors=True)
 
 
 # Second, diagnostic run for one signature family only (the `assert module_name == confirmed_module_name`
@@ -376,6 +425,8 @@ def long_name_corpus():
             for sk, dec in slots.items():
                 if nk not in ("dotted", "bracketed") and sk not in ("gets", "call-arg"):
                     continue
+                if tk not in ("valid", "space") and sk not in ("gets", "call-target"):
+                    continue        # every slot sees a valid and an invalid-at-the-end name; the other tails go to two slots
                 src = ANN + "def helper(z, w=0):\n    return z.s\n" + dec + "\ndef touch(a):\n    return a.x\ndef caller(q):\n    return touch(q)\n"
                 out.append({"row": f"longname:{nk}:{tk}:{sk}", "files": {"target.py": src}, "opts": [], "target": "target.py"})
     # the same on a class and in a followed import
@@ -410,6 +461,8 @@ def escaping_import_corpus():
                 for with_higher in (True, False):
                     if not with_higher and fi not in (0, 2):
                         continue
+                    if level == 4 and fi not in (0, 1, 2):
+                        continue
                     files = dict(base)
                     if not with_higher:
                         files = {k: v for k, v in files.items() if not k.startswith("common/") and k != "sib.py"}
@@ -417,7 +470,7 @@ def escaping_import_corpus():
                     tag = f"escape:{path}:L{level}:{fi}:{'with' if with_higher else 'without'}-higher"
                     if path != "target.py":
                         out.append({"row": tag + ":as-target", "files": files, "opts": [], "target": path})
-                    if importer is not None and (fi in (0, 2, 3) or level == 1):
+                    if importer is not None and (fi in (0, 2) or (level == 1 and fi == 3)):
                         f2 = dict(files)
                         f2["target.py"] = importer + "\ndef main(request):\n    return request.x\n"
                         out.append({"row": tag + ":followed", "files": f2, "opts": [], "target": "target.py"})
@@ -493,6 +546,193 @@ def cross_corpus():
             continue
         good.append(c)
     return good
+
+
+
+# ------------------------------------------------------------------------------------ sanctioned fatal sites
+
+# Diagnostic run for the fatal-site corpus: the same command line through runpy, with `error.fatal` wrapped
+# to report its CALLER (file:line) on the real stderr (even under rattr's own redirect_stderr) and the
+# final SystemExit attributed to the frame that raised it.
+FATAL_WRAPPER = r"""
+import sys, os, runpy
+import rattr.error
+_pkg = sys.modules["rattr.error"]; _mod = sys.modules["rattr.error.error"]
+_root = os.path.dirname(os.path.dirname(os.path.dirname(os.path.abspath(_pkg.__file__))))
+_orig = _mod.__dict__["fatal"]
+def _rel(p):
+    p = os.path.abspath(p)
+    return os.path.relpath(p, _root) if p.startswith(_root) else p
+def fatal(*a, **k):
+    f = sys._getframe(1)
+    sys.__stderr__.write("C07-FATAL-CALL %s:%d\n" % (_rel(f.f_code.co_filename), f.f_lineno))
+    return _orig(*a, **k)
+_mod.__dict__["fatal"] = fatal
+_pkg.fatal = fatal
+sys.argv = ["rattr"] + sys.argv[1:]
+try:
+    runpy.run_module("rattr", run_name="__main__", alter_sys=True)
+except SystemExit as e:
+    tb = e.__traceback__
+    frames = []
+    while tb is not None:
+        frames.append((tb.tb_frame.f_code.co_filename, tb.tb_lineno, tb.tb_frame.f_code.co_name))
+        tb = tb.tb_next
+    frames = [f for f in frames if "/rattr/" in f[0] and f[2] != "fatal"]
+    if frames:
+        sys.__stderr__.write("C07-EXIT %s:%d\n" % (_rel(frames[-1][0]), frames[-1][1]))
+    raise
+"""
+
+
+def scan_fatal_sites():
+    """Tie-A style: every place in the rattr package that ends the process on purpose — calls of
+    `error.fatal` / `fatal` / `sys.exit` / `exit`, and functions holding a reference to `error.fatal`
+    (indirect call) — by ast scan of the tree under test. -> list of dict(id, file, fn, kind, lo, hi, msg)."""
+    import rattr
+
+    root = Path(os.path.dirname(rattr.__file__))
+    sites = []
+    for f in sorted(root.rglob("*.py")):
+        rel = f.relative_to(root.parent).as_posix()
+        tree = ast.parse(f.read_text())
+
+        def msg_of(call):
+            if not call.args:
+                return ""
+            a = call.args[0]
+            if isinstance(a, ast.Constant) and isinstance(a.value, str):
+                return a.value[:50]
+            if isinstance(a, ast.JoinedStr):
+                return "".join(v.value if isinstance(v, ast.Constant) else "{}" for v in a.values)[:50]
+            return "<" + ast.unparse(a)[:40] + ">"
+
+        def walk(node, qual, fnspan):
+            for ch in ast.iter_child_nodes(node):
+                if isinstance(ch, (ast.FunctionDef, ast.AsyncFunctionDef, ast.ClassDef)):
+                    walk(ch, qual + [ch.name], (ch.lineno, ch.end_lineno))
+                    continue
+                if isinstance(ch, ast.Call):
+                    fn = ast.unparse(ch.func)
+                    if fn in ("error.fatal", "fatal", "sys.exit", "_sys.exit", "exit"):
+                        if not (rel.endswith("error/error.py") and ".".join(qual) == "fatal"):      # the sink itself
+                            sites.append({"file": rel, "fn": ".".join(qual) or "<module>", "kind": fn, "lo": ch.lineno,
+                                          "hi": ch.end_lineno, "msg": msg_of(ch)})
+                        for sub in list(ch.args) + [k.value for k in ch.keywords]:
+                            walk(sub, qual, fnspan)
+                        continue
+                if isinstance(ch, ast.Attribute) and ast.unparse(ch) == "error.fatal":
+                    sites.append({"file": rel, "fn": ".".join(qual) or "<module>", "kind": "ref:error.fatal", "lo": fnspan[0],
+                                  "hi": fnspan[1], "msg": "<indirect>"})
+                    continue
+                walk(ch, qual, fnspan)
+
+        walk(tree, [], (1, 10 ** 9))
+    for s in sites:
+        s["id"] = f"{s['file']}::{s['fn']}::{s['kind']}::{s['msg']}"
+    # make ids unique (same message twice in one function)
+    seen = {}
+    for s in sites:
+        n = seen.get(s["id"], 0)
+        seen[s["id"]] = n + 1
+        if n:
+            s["id"] += f"#{n + 1}"
+    return sites
+
+
+# sites no CLI input reaches, with the reason (anything unreached and not listed here is reported as
+# "no corpus row reaches it": that is how a NEW fatal site shows up)
+UNREACHABLE_FATAL = [
+    ("rattr/cli/_validate.py", "", "unused duplicate of rattr/config/_util.py validate_arguments (no importer)"),
+    ("rattr/config/util.py", "find_xdg_cache_dir", "dead code (no callers)"),
+    ("rattr/models/context/_root_context.py", "node has no module", "an absolute ImportFrom always has a module name (ast invariant)"),
+    ("rattr/analyser/util.py", "get_namedtuple_attrs_from_call", "dead code (no callers)"),
+    ("rattr/analyser/function.py", "unable to find lambda in rhs", "marked never: has_lambda_in_rhs on a one-to-one assignment implies the value is a lambda"),
+    ("rattr/analyser/base.py", "Assertor.failed", "no assertor plugin is registered by default (plugins.assertors == [])"),
+    ("rattr/models/symbol/_util.py", "kwarg_name", "CallArguments.from_call skips `**kw` keywords before naming them"),
+]
+
+
+def fatal_site_corpus():
+    """One row (at least) per reachable sanctioned-fatal site; `importable` rows also get a followed-import twin."""
+    rows = []
+    pre = ("import collections\nfrom collections import defaultdict, namedtuple\n" + ANN +
+           "class Cls:\n    def __init__(self, a):\n        self.x = a\ndef helper(z, w=0):\n    return z.s\nglob = 1\n")
+
+    def add(name, body, opts=(), importable=True, files=None):
+        rows.append({"row": f"fatal:{name}", "files": dict(files or {}, **{"target.py": pre + body}), "opts": list(opts), "target": "target.py"})
+        if importable:
+            rows.append({"row": f"fatal:{name}:followed", "opts": list(opts), "target": "target.py",
+                         "files": dict(files or {}, **{"lib.py": pre + body, "target.py": "import lib\nfrom lib import helper\ndef main(q):\n    return helper(q)\n"})})
+
+    fn = lambda stmt: f"def f(a, b):\n    {stmt}\n"  # noqa: E731
+    # --- annotations (analyser/util.py)
+    two = "@rattr_results(gets={'a.x'})\n@rattr_results(sets={'a.y'})\n"
+    add("annotation-duplicated-function", two + "def f(a):\n    return a.x\n")
+    add("annotation-duplicated-class", two + "class K:\n    def __init__(self, a):\n        self.x = a\n")
+    add("annotation-duplicated-async", two + "async def f(a):\n    return a.x\n")
+    add("annotation-duplicated-three", two + "@rattr_results()\ndef f(a):\n    return a.x\n")
+    add("annotation-duplicated-dotted", "import rattr.analyser.annotations as ann\n@ann.rattr_results(gets={'a'})\n@rattr_results()\ndef f(a):\n    return a.x\n")
+    add("annotation-missing-comma", "@rattr_results(calls=[('helper' (['a'], {}))])\ndef f(a):\n    return a.x\n")
+    add("annotation-unevaluable", "@rattr_results(gets={glob})\ndef f(a):\n    return a.x\n")
+    add("annotation-dict-unpacking", "@rattr_results(calls=[('helper', (['a'], {**glob}))])\ndef f(a):\n    return a.x\n")
+    add("annotation-positional", "@rattr_results({'a'})\ndef f(a):\n    return a.x\n")
+    add("annotation-unexpected-keyword", "@rattr_results(gets={'a'}, reads={'b'})\ndef f(a):\n    return a.x\n")
+    add("annotation-gets-not-a-set", "@rattr_results(gets=['a'])\ndef f(a):\n    return a.x\n")
+    add("annotation-gets-none", "@rattr_results(gets=None)\ndef f(a):\n    return a.x\n")
+    add("annotation-name-invalid", "@rattr_results(sets={'not a name'})\ndef f(a):\n    return a.x\n")
+    add("annotation-calls-bad-shape", "@rattr_results(calls=[('helper',)])\ndef f(a):\n    return a.x\n")
+    add("annotation-calls-not-a-list", "@rattr_results(calls=('helper', ([], {})))\ndef f(a):\n    return a.x\n")
+    add("annotation-on-class-bad", "@rattr_results(gets=1)\nclass K:\n    def __init__(self, a):\n        self.x = a\n")
+    # --- function analyser
+    add("fn-global", fn("global g"))
+    add("fn-nonlocal", "def f(a):\n    v = 1\n    def inner():\n        nonlocal v\n        v = 2\n    return a\n")
+    add("fn-import", fn("import json"))
+    add("fn-import-from", fn("from os import sep"))
+    add("fn-lambda-not-one-to-one", fn("x, y = lambda: 1, lambda: 2"))
+    add("fn-namedtuple-not-one-to-one", fn("x, y = namedtuple('X', 'a'), namedtuple('Y', 'b')"))
+    add("fn-class-not-one-to-one", fn("x = y = Cls(a)"))
+    add("fn-getattr-too-few", fn("getattr(a)"))
+    add("fn-getattr-too-few-assigned", fn("x = getattr(a)"))
+    add("fn-getattr-too-few-argument", fn("helper(getattr(a))"))
+    add("fn-getattr-too-few-attr", fn("return getattr(a).b"))
+    add("fn-getattr-nested-other-call", fn("getattr(helper(a), 'x')"))
+    add("fn-getattr-nested-other-call-assigned", fn("x = getattr(helper(a), 'x')"))
+    add("fn-getattr-nested-other-call-argument", fn("helper(getattr(helper(a), 'x'))"))
+    add("fn-getattr-nested-other-call-attr", fn("return getattr(helper(a), 'x').y"))
+    add("fn-hasattr-in-setattr", fn("setattr(hasattr(a, 'x'), 'y', 1)"))
+    add("fn-in-init", "class K:\n    def __init__(self, a):\n        global g\n")
+    add("fn-in-static", "class K:\n    @staticmethod\n    def sm(a):\n        import json\n")
+    add("fn-in-module-lambda", "lam = lambda a: getattr(a)\n")
+    # --- file / class / root context
+    add("file-lambda-not-one-to-one", "l1, l2 = lambda: 1, lambda: 2\n")
+    add("file-namedtuple-not-one-to-one", "n1, n2 = namedtuple('A', 'a'), namedtuple('B', 'b')\n")
+    add("file-anonymous-lambda", "(lambda q: q.x)\n")
+    add("file-anonymous-lambda-call", "helper(lambda q: q.x)\n")
+    add("class-async-init", "class K:\n    async def __init__(self, a):\n        self.x = a\n")
+    add("root-module-not-found", "import nonexistent_module_xyz\n")
+    add("root-module-not-found-from", "from nonexistent_module_xyz import thing\n")
+    add("root-module-not-found-relative", "from .nonexistent_sibling import thing\n")
+    # --- config / cli / main
+    F = "def f(a):\n    return a.x\n"
+    E = "def f(a):\n    def inner():\n        pass\n    return undefined_name.q\n"
+    add("cli-missing-target", F, importable=False)
+    rows[-1]["target"] = "no_such_file.py"
+    add("cli-negative-threshold", F, ["--threshold=-1"], importable=False)
+    add("cli-strict-promotes-error", E, ["--strict"])
+    add("main-threshold-exceeded", E, ["--threshold", "1"], importable=False)
+    add("toml-invalid-value", F, importable=False, files={"pyproject.toml": "[tool.rattr]\nthreshold = 'x'\n"})
+    add("toml-syntax-error", F, importable=False, files={"pyproject.toml": "[tool.rattr\n"})
+    add("toml-bool-for-int", F, importable=False, files={"pyproject.toml": "[tool.rattr]\nthreshold = false\n"})
+    add("toml-strict-promotes", E, importable=False, files={"pyproject.toml": "[tool.rattr]\nstrict = true\n"})
+    # normal / argparse exits (not fatal: exit 0 / usage), for site coverage only
+    add("exit-normal", F, importable=False)
+    rows[-1]["not_fatal"] = True
+    for name, o in (("usage-unknown-option", ["--no-such-option"]), ("usage-bad-choice", ["-f", "9"]), ("usage-help", ["--help"]),
+                    ("usage-strict-and-threshold", ["--strict", "--threshold", "3"])):
+        add(name, F, o, importable=False)
+        rows[-1]["usage"] = True
+    return rows
 
 
 # ------------------------------------------------------------------------------------ function-level tie
@@ -607,7 +847,7 @@ def run(tier, seed, build):
                 "predicate NoCrashShapeFn on every generated function. non-trivial = distinct project whose run was not a plain exit 0, "
                 "or function whose real analysis raised")
     rng = random.Random(seed)
-    n_projects = 480 if tier == "quick" else 2400
+    n_projects = 400 if tier == "quick" else 2400
     n_sweep = 60 if tier == "quick" else 400
     n_fn_modules = 70 if tier == "quick" else 500
     model = common.Model()
@@ -616,6 +856,9 @@ def run(tier, seed, build):
         cases = []
         for c in corpus():
             cases.append(dict(c, kind="corpus"))
+        fatal_rows = fatal_site_corpus()
+        for c in fatal_rows:
+            cases.append(dict(c, kind="fatalsite", expect=None, tags=[]))      # before the random part: deterministic replays
         for i in range(n_projects):
             p = c07gen.gen_project(rng, hostile=0.1)
             cases.append(dict(p, kind="generated", row=None))
@@ -642,9 +885,38 @@ def run(tier, seed, build):
 
         with ThreadPoolExecutor(max_workers=WORKERS) as ex:
             outs = list(ex.map(lambda c: run_cli(tmp, c), cases))
+            attributions = list(ex.map(lambda c: run_cli(tmp, dict(c, fatal_wrapper=True)), fatal_rows))
 
         slowest = 0.0
+        # ---- wall-clock timeouts are suspicions: confirm each alone (CPU-time based), at most MAX_CONFIRMED_TIMEOUTS long waits
+        confirmed_sigs, unconfirmed = {}, []
+        for i, (c, o) in enumerate(zip(cases, outs)):
+            if not o[3]:
+                continue
+            first_sig = classify(*o[:4], c["opts"])[1]
+            if len(confirmed_sigs) >= MAX_CONFIRMED_TIMEOUTS and first_sig not in confirmed_sigs:
+                unconfirmed.append((i, first_sig))
+                continue
+            if first_sig in confirmed_sigs:
+                unconfirmed.append((i, first_sig))         # same place as a confirmed hang: reported under it, no second long wait
+                continue
+            r = confirm_timeout(tmp, c)
+            if r[0] == "finished":
+                outs[i] = (r[1], r[2], r[3], False, o[4])  # it was only slow: judge the finished run
+                res.count("timeout:first-pass-only(finished-when-run-alone)")
+            else:
+                outs[i] = (None, o[1], r[3], True, o[4])
+                sig = classify(None, o[1], r[3], True, c["opts"])[1]
+                confirmed_sigs[sig] = {"cpu_s": r[1], "wall_s": r[2], "row": c.get("row")}
+                if sig != first_sig:
+                    confirmed_sigs.setdefault(first_sig, confirmed_sigs[sig])
+        res.extra["confirmed_timeouts"] = confirmed_sigs
+        res.extra["unconfirmed_timeouts"] = [{"row": cases[i].get("row"), "first_pass_signature": sg, "opts": cases[i]["opts"]} for i, sg in unconfirmed][:40]
+        unconfirmed_idx = {i for i, _ in unconfirmed}
         verdicts = [classify(rc, out, err, to, c["opts"]) for c, (rc, out, err, to, dt) in zip(cases, outs)]
+        for i in unconfirmed_idx:
+            # never a violation by itself; listed in evidence (and, when a confirmed hang exists, they are its further witnesses)
+            verdicts[i] = ("unconfirmed-timeout", None, "")
         # the two `assert module_name == confirmed_module_name` sites: say which relative import it was
         need = [i for i, v in enumerate(verdicts) if v[1] in ASSERT_SIGS]
         with ThreadPoolExecutor(max_workers=WORKERS) as ex:
@@ -652,9 +924,49 @@ def run(tier, seed, build):
         for i, k in zip(need, classes):
             verdicts[i] = (verdicts[i][0], f"{verdicts[i][1]}[{k}]", verdicts[i][2])
             res.count("relative-import-class:" + k)
+        # ---- a would-be VIOLATION (signature not among the known findings) must reproduce: the tree under test or the
+        # machine may have been disturbed while that one subprocess ran (seen once: rattr failed to import itself while
+        # another process was rewriting the checkout). Re-run such cases; report only what recurs.
+        known_sigs = {f["signature"] for f in common.load_findings(PID) if f.get("status", "known") == "known"}
+
+        def judge_again(i, delay):
+            time.sleep(delay)
+            o = run_cli(tmp, cases[i])
+            v = classify(*o[:4], cases[i]["opts"])
+            if v[1] in ASSERT_SIGS:
+                v = (v[0], f"{v[1]}[{relative_import_class(tmp, cases[i])}]", v[2])
+            return o, v
+
+        suspects = [i for i, v in enumerate(verdicts) if v[1] is not None and v[1] not in known_sigs and v[0] != "timeout"
+                    and not cases[i].get("usage")]
+        unreproduced = []
+        if suspects:
+            with ThreadPoolExecutor(max_workers=WORKERS) as ex:
+                second = list(ex.map(lambda i: judge_again(i, 1.0), suspects))
+            for i, (o2, v2) in zip(suspects, second):
+                if v2[1] == verdicts[i][1]:
+                    continue                                   # reproduced
+                o3, v3 = judge_again(i, 3.0)
+                if v3[1] == verdicts[i][1]:
+                    continue
+                unreproduced.append({"row": cases[i].get("row"), "opts": cases[i]["opts"], "first": verdicts[i][1], "second": v2[1] or v2[0],
+                                     "third": v3[1] or v3[0], "first_detail": verdicts[i][2][-400:]})
+                if v2[1] == v3[1]:
+                    outs[i], verdicts[i] = o3, v3               # the stable verdict
+                else:
+                    verdicts[i] = ("unstable", None, "")
+        res.extra["unreproduced_candidates"] = unreproduced[:20]
         for c, (rc, out, err, to, dt), (cls, sig, detail) in zip(cases, outs, verdicts):
             res.evaluations += 1
             slowest = max(slowest, dt)
+            if c.get("usage"):
+                # argparse's own exits (usage error / --help): outside the oracle [interp], run for site coverage
+                if "usage:" in (out + err):
+                    cls, sig, detail = "usage", None, ""
+                else:
+                    sig = sig or f"other:usage-row-exit{rc}"
+            elif c["kind"] == "fatalsite" and not c.get("not_fatal"):
+                res.count("fatal-row:" + ("exit1+fatal-line" if cls == "exit1:diagnostic" and detail.startswith("fatal:") else cls))
             res.count(f"{c['kind']}:{cls.split(':')[0]}")
             res.count("class:" + cls)
             for t in c.get("tags") or []:
@@ -669,11 +981,39 @@ def run(tier, seed, build):
                 res.nontrivial.add(common.digest([c["files"].get(c["target"]), c["opts"]]))
             if sig is not None:
                 res.count("verdict:" + sig)
-                res.violations.append({"signature": sig, "case": small, "detail": detail[-1200:], "exit": rc})
+                v = {"signature": sig, "case": small, "detail": detail[-1200:], "exit": rc}
+                if cls == "timeout":
+                    v["confirmation"] = confirmed_sigs.get(sig)
+                    v["further_timed_out_rows"] = [cases[i].get("row") for i, _ in unconfirmed][:40]
+                res.violations.append(v)
             if c["kind"] == "corpus" and c["row"].startswith("control") and sig is not None:
                 res.internal_errors.append({"what": "control case is not in a sanctioned class", "row": c["row"], "sig": sig})
             if c["kind"] == "corpus":
                 res.sample({"row": c["row"], "opts": c["opts"], "class": cls, "signature": sig}, cap=40)
+        # ---- fatal-site coverage (sites recomputed from the source under test on every run)
+        sites = scan_fatal_sites()
+        reached = {}
+        for c, (rc, out, err, to, dt) in zip(fatal_rows, attributions):
+            for m in re.finditer(r"^C07-(?:FATAL-CALL|EXIT) (\S+):(\d+)$", err, re.M):
+                f, ln = m.group(1), int(m.group(2))
+                for st in sites:
+                    if st["file"] == f and st["lo"] <= ln <= st["hi"] and (st["kind"] != "ref:error.fatal" or True):
+                        if st["kind"] == "ref:error.fatal" and any(o["file"] == f and o["lo"] <= ln <= o["hi"] and o is not st
+                                                                   and o["kind"] != "ref:error.fatal" for o in sites):
+                            continue
+                        reached.setdefault(st["id"], []).append(c["row"])
+        unreached = []
+        for st in sites:
+            res.count("fatal-site:" + ("reached" if st["id"] in reached else "unreached"))
+            if st["id"] not in reached:
+                why = next((w for f, frag, w in UNREACHABLE_FATAL if st["file"] == f and (frag in st["fn"] or frag in st["msg"])),
+                           "no corpus row reaches it (new or unclassified site)")
+                unreached.append({"site": st["id"], "line": st["lo"], "reason": why})
+        res.extra["fatal_sites_total"] = len(sites)
+        res.extra["fatal_sites_reached"] = len(reached)
+        res.extra["fatal_site_coverage"] = f"{len(reached)}/{len(sites)}"
+        res.extra["unreached_fatal_sites"] = unreached
+        res.extra["fatal_sites"] = {k: sorted(set(v))[:4] for k, v in sorted(reached.items())}
         res.extra["slowest_run_s"] = round(slowest, 2)
         res.extra["cli_runs"] = len(cases)
 
@@ -684,6 +1024,8 @@ def run(tier, seed, build):
         "[interp] an option VALUE that argparse rejects (exit 2, usage message) is outside the quantifier; only accepted combinations are generated",
         "[interp] an invalid regular expression given to -x / -F is inside the quantifier (the option accepts any string); it is exercised by the corpus only",
         "[interp] a cache hit (exit 0, nothing printed) counts as a sanctioned outcome",
+        "a case whose signature is not a known finding is re-run (up to twice) and reported only if the signature recurs; unreproduced ones are listed in evidence (`unreproduced_candidates`)",
+        "a 30 s wall-clock timeout is only a suspicion: the case is re-run alone and reported as a hang only after >= 60 s of its own CPU time (or 240 s wall) without finishing; at most 2 such confirmations per run, further timed-out rows are listed as unconfirmed and are never violations by themselves",
         "interpreter resource limits (RecursionError on ~1000-deep expressions, memory) and the contents of real site-packages / stdlib at follow levels 2-3 are outside the claim (sampled only)",
         "the crash-freedom theorem covers the function analyser model; file / class / root-context / import / results stages are covered by the raise-site table (Tie A) and this CLI sweep",
     ]
